@@ -70,11 +70,19 @@ def build_real(t, keys):
         return Diagonalize([keys[i] for i in t[1]])
     if k == "acc":
         return Accumulate([keys[i] for i in t[1]])
+    if k in ("stack", "conj"):
+        # structurally equal members: half of the time the SAME object is listed twice (`s | s`, `Conjunction([s, t, s])`) —
+        # the rules are about keys, not about object identity
+        ms, memo = [], {}
+        for x in t[1]:
+            if repr(x) in memo and _FORM.random() < 0.5:
+                ms.append(memo[repr(x)])
+            else:
+                ms.append(build_real(x, keys))
+                memo[repr(x)] = ms[-1]
     if k == "stack":
-        ms = [build_real(x, keys) for x in t[1]]
         return _compound(lambda: Stack(ms), ms, "Stack")
     if k == "conj":
-        ms = [build_real(x, keys) for x in t[1]]
         if len(ms) == 2 and _FORM.random() < 0.4:
             return _compound(lambda: ms[0] | ms[1], ms, "a | b")          # the operator spelling of a conjunction
         return _compound(lambda: Conjunction(ms), ms, "Conjunction")
@@ -141,7 +149,20 @@ def observe(t, shapes, inp):
         r = tr(d)
         a = ("ok", type(r).__name__, sorted((idx[id(k)], tuple(v.shape)) for k, v in r.items()))
     except Exception as e:  # noqa: BLE001
-        a = ("err", classify_exc(e))
+        return b, ("err", classify_exc(e))
+    # the dictionary a transform RETURNS is a dictionary of the family too: it rejects every mutator
+    kk = next(iter(r), keys[0])
+    accepted = []
+    for name, op in (("__setitem__", lambda x: x.__setitem__(kk, torch.zeros(1))), ("update", lambda x: x.update({})),
+                     ("setdefault", lambda x: x.setdefault(kk, torch.zeros(1))), ("__delitem__", lambda x: x.__delitem__(kk)),
+                     ("pop", lambda x: x.pop(kk)), ("popitem", lambda x: x.popitem()), ("clear", lambda x: x.clear())):
+        try:
+            op(r)
+            accepted.append(name)
+        except Exception:  # noqa: BLE001
+            pass
+    if accepted:
+        a = ("result-accepts-mutation", type(r).__name__, accepted)
     return b, a
 
 
